@@ -28,7 +28,7 @@ import (
 )
 
 type Case struct {
-	Kind      string       `json:"kind"` // newfrom | merge | refs | faults
+	Kind      string       `json:"kind"` // newfrom | merge | fmerge | refs | faults
 	A         *gen.Tree    `json:"a,omitempty"`
 	B         *gen.Tree    `json:"b,omitempty"`
 	Policy    model.Policy `json:"policy,omitempty"`
@@ -38,6 +38,8 @@ type Case struct {
 	Resolvers [][]vx.KV    `json:"resolvers,omitempty"`
 	Perms     [][]int      `json:"perms"`
 	IfaceKeys bool         `json:"ifacekeys,omitempty"` // input maps are map[interface{}]interface{} (what the YAML decoder produces)
+	FOpts     []OptSpec    `json:"fopts,omitempty"`     // fmerge: per-field merge options, in the order they are passed
+	Into      string       `json:"into,omitempty"`      // fmerge: merge (B as Go value) | mergecfg (B as *Config) | unpackcfg (B unpacked into the config of A)
 }
 
 var keyPool = []string{"a", "b", "a.b", "a.c", "a.b.c", "a.0", "a.1", "b.a", "b.0.a", "a.b.0", "c", "c.a"}
@@ -70,7 +72,9 @@ func genDotted(t *rapid.T, varexp bool) *gen.Tree {
 	if rapid.IntRange(0, 3).Draw(t, "twice") == 0 {
 		// one object defined twice (nested below "a" and under the dotted name "a.b"), both definitions holding
 		// a sub-object of the same name next to other settings: three levels that are merged recursively
-		leaf := func() *gen.Tree { return gen.GenTree(t, &gen.TreeCfg{Depth: 1, Width: 2, Keys: []string{"p", "q"}, NoFloat: true}, 1) }
+		leaf := func() *gen.Tree {
+			return gen.GenTree(t, &gen.TreeCfg{Depth: 1, Width: 2, Keys: []string{"p", "q"}, NoFloat: true}, 1)
+		}
 		inner1, inner2 := gen.Obj().Put("p", leaf()), gen.Obj().Put("q", leaf())
 		def1 := gen.Obj().Put("s", inner1)
 		def2 := gen.Obj().Put("s", inner2)
@@ -95,7 +99,10 @@ func genCase(t *rapid.T) Case {
 		c.Kind = "newfrom"
 		c.VarExp = rapid.Bool().Draw(t, "varexp")
 		c.A = genDotted(t, c.VarExp)
-	case 3, 4:
+	case 3:
+		c.Kind = "fmerge"
+		c.genFieldMerge(t)
+	case 4:
 		c.Kind = "merge"
 		c.VarExp = rapid.Bool().Draw(t, "varexp")
 		c.A = genDotted(t, c.VarExp)
@@ -303,6 +310,8 @@ func runCase(c Case, r *runlog.R) error {
 				}
 				return []interface{}{d, ps, len(pm)}, nil
 			})
+		case "fmerge":
+			s = sigOf(func() (interface{}, error) { return c.runFieldMerge(perm, func(o string) { orders[o] = true }) })
 		case "refs", "faults":
 			opts, err := vx.Options(c.Envs, c.Resolvers)
 			if err != nil {
@@ -357,6 +366,9 @@ func runCase(c Case, r *runlog.R) error {
 		return fmt.Errorf("the outcome of the same %s operation depends on map enumeration order: %d different outcomes in %d repetitions\n%s", c.Kind, len(sigs), reps, strings.Join(lines, "\n"))
 	}
 	r.Class("kind=" + c.Kind)
+	if c.Kind == "fmerge" {
+		c.classesFieldMerge(r)
+	}
 	r.ClassIf(c.IfaceKeys, "interface-keyed input maps")
 	r.ClassIf(strings.HasPrefix(first, "error"), "outcome: error")
 	r.ClassIf(strings.HasPrefix(first, "ok"), "outcome: ok")
@@ -368,6 +380,8 @@ func runCase(c Case, r *runlog.R) error {
 // interacting: at least two keys at one level whose dotted expansions overlap, or settings that reference each other
 func interacting(c Case) bool {
 	switch c.Kind {
+	case "fmerge":
+		return len(c.FOpts) > 0 && sharedContainers(c.A, c.B) >= 2
 	case "newfrom", "merge":
 		for _, t := range []*gen.Tree{c.A, c.B} {
 			if t == nil {
@@ -391,13 +405,13 @@ func interacting(c Case) bool {
 
 var subOrder = runlog.Register(&runlog.Sub[Case]{
 	Name:    "order-independence",
-	Rule:    "four input classes: (newfrom) top-level maps whose keys overlap after dotted expansion (same leaf, prefixes of one another, object vs primitive vs list vs nil), optionally with references; (merge) two such maps merged under one of the five policies - both also unpacked into a target map pre-filled with entries of its own, one of which may fail validation; (refs) reference graphs incl. cycles absorbed by defaults/resolvers unpacked into generic data; (faults) the same graphs unpacked into a typed struct so that several settings fail with faults of different kinds. Each case carries 3-6 insertion permutations; the operation is repeated 8 (quick) / 24 (thorough) / 200 (replay) times on freshly built inputs and all outcome signatures (canonical data, or error kind = root Reason with quoted parts blanked) must be equal. Non-trivial: at least two keys at one level overlap or settings reference each other, and at least two different enumeration orders of the root dictionary were observed. Distinct: hash of the case.",
+	Rule:    "five input classes: (newfrom) top-level maps whose keys overlap after dotted expansion (same leaf, prefixes of one another, object vs primitive vs list vs nil), optionally with references; (merge) two such maps merged under one of the five policies - both also unpacked into a target map pre-filled with entries of its own, one of which may fail validation; (fmerge) two trees of related shape (containers of the same kind at the same paths below a-d, settings only one side has, kinds that differ, optionally a dotted key in the source) merged - source as Go value, source as *Config, or source unpacked into the target config - under a global policy plus 1-4 per-field options (replace/append/prepend/merge, 1-2 names each) whose names overlap: 1-3 segments of names, indexes, '*' and the any-depth wildcard '**', half of them variations of an earlier name (put below a named field, put below '**', one segment widened, shortened, deepened), so that wildcards sit at the top, below named fields and below one another and one leaf is handled differently by names of different specificity; (refs) reference graphs incl. cycles absorbed by defaults/resolvers unpacked into generic data; (faults) the same graphs unpacked into a typed struct so that several settings fail with faults of different kinds. Each case carries 3-6 insertion permutations; the operation is repeated 8 (quick) / 24 (thorough) / 200 (replay) times on freshly built inputs and all outcome signatures (canonical data, or error kind = root Reason with quoted parts blanked) must be equal. Non-trivial: at least two keys at one level overlap or settings reference each other (fmerge: at least one per-field option and two non-empty containers of the same kind shared by target and source), and at least two different enumeration orders of the root dictionary were observed. Distinct: hash of the case.",
 	Gen:     genCase,
 	Run:     runCase,
 	Journal: true, // a worker that dies (memory, stack) names its case
 })
 
-func TestOrderIndependence(t *testing.T) { subOrder.Check(t, 120000, 3000000) }
+func TestOrderIndependence(t *testing.T) { subOrder.Check(t, 90000, 3000000) }
 
 func TestReplay(t *testing.T) { runlog.ReplayMain(t) }
 
